@@ -46,12 +46,13 @@ type Program struct {
 
 // Env is shared state for a check run.
 type Env struct {
-	St      *stage.Stage
-	GJS     string
-	Exports *gocheck.Exports
-	ModTmpl string // directory holding go.mod/go.sum template for batch modules
-	seq     int
-	mu      sync.Mutex
+	St       *stage.Stage
+	GJS      string
+	Exports  *gocheck.Exports
+	ModTmpl  string // directory holding go.mod/go.sum template for batch modules
+	CoverDir string // GOCOVERDIR when coverage observation is on
+	seq      int
+	mu       sync.Mutex
 }
 
 // NewEnv stages the repo, builds the CLI and loads export data.
@@ -518,4 +519,41 @@ func (e *Env) BuildInDrv(race bool) (string, error) {
 		return "", fmt.Errorf("in-module driver build failed: %v\n%s", err, out)
 	}
 	return filepath.Join(e.St.Bin, name), nil
+}
+
+// EnableCoverage rebuilds the CLI with statement-coverage instrumentation of every package of the repository and
+// makes all later CLI runs of this process record into one GOCOVERDIR (an observer only: what did the workload reach).
+func (e *Env) EnableCoverage() error {
+	bin, err := e.St.BuildCLI("gjs-cover", "-cover", "-coverpkg=./...")
+	if err != nil {
+		return err
+	}
+	dir := filepath.Join(e.St.Root, "covdata")
+	if err := os.MkdirAll(dir, 0o755); err != nil {
+		return err
+	}
+	e.GJS = bin
+	e.CoverDir = dir
+	return os.Setenv("GOCOVERDIR", dir)
+}
+
+// CoverageReport summarises GOCOVERDIR: package -> percent of statements reached.
+func (e *Env) CoverageReport() map[string]string {
+	if e.CoverDir == "" {
+		return nil
+	}
+	out, err := stage.GoRun(e.St.Repo, nil, "tool", "covdata", "percent", "-i="+e.CoverDir)
+	res := map[string]string{}
+	if err != nil {
+		res["error"] = strings.TrimSpace(string(out))
+		return res
+	}
+	for _, l := range strings.Split(string(out), "\n") {
+		f := strings.Fields(l)
+		// "<pkg>\tcoverage: 83.1% of statements"
+		if len(f) >= 3 && f[1] == "coverage:" {
+			res[strings.TrimPrefix(f[0], "github.com/atombender/go-jsonschema/")] = f[2]
+		}
+	}
+	return res
 }
